@@ -24,12 +24,23 @@
                                                                     of Gen/LitReadersGen.lean in the order of the calls); oob = a store outside the text
      join <hex> <hex> ... -> join <ty> <n> <hex units> | join err   join_adjacent_string_literals on adjacent literals
      file <hex bytes>     -> file <hex text> int|flt|chr|str ... | file <hex text> other | file err <e>
-                                                                    tokenize_file: phases, then the first token
+                                                                    tokenize_file: read_file's tail as *translated* (Gen/StrJoinGen.lean
+                                                                    `readFileBuf`), the C string in its array, the phases, then the first token
+     rdf <hex bytes>      -> rdf <hex bytes>                        read_file on a file with these bytes: the returned C string and its
+                                                                    terminator (translated tail of read_file)
+     filej <hex bytes>    -> filej <tok> <tok> ... | filej err <e>  the bytes of a file through read_file, tokenize_file (phases: UCNs become
+                                                                    UTF-8 before the tokenizer), tokenize, join_adjacent_string_literals
+     joinb <hex> <hex> ... -> joinb <tok> <tok> ... | joinb err <e> join_adjacent_string_literals on a whole token list: every argument is the
+                                                                    text of one token (string literals and other tokens, separated by one
+                                                                    space in the text); runs the *translated* passes (Gen/StrJoinGen.lean)
+                                                                    under the hand-written iteration over runs (Model/StrJoin.lean);
+                                                                    <tok> = S:<ty>:<array_len>:<hex of the ty->size bytes at str> | O
 -/
 import ChibiVerif.Model.Literals
 import ChibiVerif.Model.Text
 import ChibiVerif.Model.LitReaders
 import ChibiVerif.Model.PpNumber
+import ChibiVerif.Model.StrJoin
 
 namespace ChibiVerif.Driver
 open ChibiVerif.Gen.Literals
@@ -92,7 +103,7 @@ def litLine (p : List Byte) : String :=
 
 def fileLine (bytes : List Byte) : String :=
   -- (`phase12 bytes` = `fileText bytes` for every NUL-free content: C11_phase_order; a store outside the text would be `none`)
-  let y := (ChibiVerif.PpNumber.fileText bytes).getD []
+  let y := (ChibiVerif.StrJoin.sourceText bytes).getD []
   match ChibiVerif.PpNumber.lexLiteralC y with
   | .ok (.int v ty n) => s!"file {bytesHex y} int {hexOf v.toNat} {tyName ty} {n}"
   | .ok (.flt n) => s!"file {bytesHex y} flt {n}"
@@ -109,6 +120,60 @@ def joinLine (srcs : List (List Byte)) : String :=
   match toks >>= joinStrings with
   | .ok t => s!"join {showStr t}"
   | .error e => s!"join err {errName e}"
+
+def joinErrName : ChibiVerif.Gen.StrJoin.JoinErr → String
+  | .unsupported_non_standard_concatenation_of_string_literals => "non-standard-concat"
+  | .unreachable => "unreachable"
+  | .read e => errName (ChibiVerif.LitReaders.ofReadErr e)
+  | .store_outside => "store-outside"
+
+/-- the tokens of a text as `tokenize()` makes them, as far as `join_adjacent_string_literals` looks at them (driver only, not
+    part of any theorem): white space is skipped; a string literal read by `lexLiteralC` is a TK_STR token (`tok->loc` = the text from
+    its first byte to the end); any other literal, and any other run of bytes up to the next white space, is some other token (the
+    generator separates tokens by white space) -/
+def lexAll (text : List Byte) : Nat → Nat → Except LitErr (List ChibiVerif.Gen.StrJoin.Tok)
+  | 0, _ => .ok []
+  | fuel + 1, pos =>
+    if pos ≥ text.length then .ok []
+    else if byteAt text pos = 32#8 ∨ byteAt text pos = 10#8 then lexAll text fuel (pos + 1)
+    else
+      let loc := text.drop pos
+      let other : ChibiVerif.Gen.StrJoin.Tok := ⟨false, loc, .ty_char, 0, []⟩
+      let word := (loc.takeWhile (fun b => b ≠ 32#8 ∧ b ≠ 10#8)).length
+      let step : Except LitErr (ChibiVerif.Gen.StrJoin.Tok × Nat) :=
+        match ChibiVerif.PpNumber.lexLiteralC loc with
+        | .ok (.str t) => .ok (ChibiVerif.Gen.StrJoin.readerTok loc t.elem t.units, t.len)
+        | .ok (.int _ _ n) => .ok (other, n)
+        | .ok (.flt n) => .ok (other, n)
+        | .ok (.chr _ _ n) => .ok (other, n)
+        | .error .notALiteral => .ok (other, word)
+        | .error e => .error e
+      match step with
+      | .error e => .error e
+      | .ok (t, n) =>
+        match lexAll text fuel (pos + (if n = 0 then 1 else n)) with
+        | .error e => .error e
+        | .ok ts => .ok (t :: ts)
+
+def joinedLine (tag : String) (text : List Byte) : String :=
+  match lexAll text (text.length + 1) 0 with
+  | .error e => s!"{tag} err {errName e}"
+  | .ok toks =>
+    match ChibiVerif.StrJoin.joinTokens toks with
+    | .error e => s!"{tag} err {joinErrName e}"
+    | .ok out =>
+      tag ++ " " ++ " ".intercalate (out.map (fun t =>
+        if t.isStr then s!"S:{tyName t.base}:{t.arrayLen}:{bytesHex t.str}" else "O"))
+
+def joinbLine (chunks : List (List Byte)) : String :=
+  joinedLine "joinb" (chunks.foldr (fun x acc => x ++ (if acc.isEmpty then [10#8] else 32#8 :: acc)) [])
+
+/-- `filej`: the bytes of a file through `read_file`'s tail and `tokenize_file` as translated, then `tokenize()` and
+    `join_adjacent_string_literals` -/
+def filejLine (bytes : List Byte) : String :=
+  match ChibiVerif.StrJoin.sourceText bytes with
+  | none => "filej oob"
+  | some y => joinedLine "filej" y
 
 def literalsLine (ws : List String) : String :=
   match ws with
@@ -212,6 +277,18 @@ def literalsLine (ws : List String) : String :=
   | "join" :: hs =>
     match hs.mapM parseBytes with
     | some ps => joinLine ps
+    | none => "bad-op"
+  | "joinb" :: hs =>
+    match hs.mapM parseBytes with
+    | some ps => joinbLine ps
+    | none => "bad-op"
+  | ["filej", h] =>
+    match parseBytes h with
+    | some p => filejLine p
+    | none => "bad-op"
+  | ["rdf", h] =>
+    match parseBytes h with
+    | some p => s!"rdf {bytesHex (ChibiVerif.Gen.StrJoin.cString (ChibiVerif.Gen.StrJoin.readFileBuf p) ++ [0#8])}"
     | none => "bad-op"
   | _ => "bad-op"
 
